@@ -96,3 +96,41 @@ func init() {
 		Outside: []string{"three or more overlapping exchanges", "expiry of a third exchange with the same ID"},
 	})
 }
+
+func c16Insts(maxrc int64) []Inst {
+	var out []Inst
+	for qos := int64(1); qos <= 2; qos++ {
+		for kind := int64(0); kind <= 2; kind++ {
+			out = append(out, Inst{Pkg: "gateway", Fn: "VH_C16_flow", Args: []int64{qos, kind, 1, 0, -1, -1}, LoopBound: 400})
+			for rc := int64(1); rc <= maxrc; rc++ {
+				if kind == 1 && rc > 1 {
+					continue
+				}
+				for f1 := int64(0); f1 <= 2; f1++ {
+					for f2 := int64(0); f2 <= 2; f2++ {
+						out = append(out, Inst{Pkg: "gateway", Fn: "VH_C16_flow", Args: []int64{qos, kind, rc, 1, f1, f2}, LoopBound: 400, MaxPaths: 60000})
+					}
+				}
+			}
+		}
+		for rc := int64(0); rc <= maxrc+1; rc++ {
+			out = append(out, Inst{Pkg: "gateway", Fn: "VH_C16_overbudget", Args: []int64{qos, rc}, LoopBound: 400})
+		}
+	}
+	return out
+}
+
+func init() {
+	reg(&Spec{
+		ID: "C16", Pkgs: []string{"gateway", "util", "client"}, LoopBound: 400, ValidateN: 6,
+		Quick: func() []Inst { return c16Insts(1) }, Thor: func() []Inst { return c16Insts(2) },
+		Asserts: []string{"C16.retransmission_same_message", "C16.retransmission_has_dup", "C16.qos1_delivered", "C16.qos1_broker_gets_puback", "C16.qos1_no_puback_before_client",
+			"C16.qos2_handshake_completes_at_broker", "C16.qos2_handler_runs_exactly_once", "C16.delivered_message_is_the_brokers", "C16.exactly_retrycount_retransmissions", "C16.transaction_gone_after_budget"},
+		Reach: []string{"C16.flow_done", "C16.overbudget_done"},
+		Bounds: map[string]string{
+			"flow":   "one broker PUBLISH QoS 1 or 2 (message ID, payload, retain symbolic) on a short / registered / new (REGISTER step included) topic; real gateway handler with its retry transactions in virtual time (RetryDelay symbolic, RetryCount 1; thorough 1..2) and the real client's handlePacket; a model broker answering PUBREC with PUBREL; the fate of every datagram in both directions is a symbolic choice among deliver / drop / duplicate with at most RetryCount consecutive non-deliveries per direction; up to 4*(RetryCount+2) timer rounds",
+			"budget": "client never answers: RetryCount 0..2 (thorough 0..3)",
+		},
+		Outside: []string{"several messages in flight", "loss on the broker (TCP) side", "predefined topics (routing: C32)"},
+	})
+}
